@@ -54,6 +54,10 @@ Definition go_cast (t : ity) (a : Z) : Z := go_wrap t a.
 Definition go_rotl64 (x k : Z) : Z :=
   let s := k mod 64 in Z.lor (go_shl (U 64) x s) (go_shr (U 64) x (64 - s)).
 
+(* math/bits.OnesCount32/64 of an unsigned value *)
+Fixpoint go_popP (p : positive) : Z := match p with xH => 1 | xO q => go_popP q | xI q => 1 + go_popP q end.
+Definition go_popcount (x : Z) : Z := match x with Zpos p => go_popP p | _ => 0 end.
+
 Definition go_len (l : list Z) : Z := Z.of_nat (length l).
 Definition go_nth (l : list Z) (j : Z) : Z := nth (Z.to_nat j) l 0.
 Fixpoint upd_nat (l : list Z) (n : nat) (v : Z) : list Z :=
